@@ -82,6 +82,8 @@ func c19Drivers() []*icCfg {
 		{Name: "R4-close-vs-all", O: big, Pre: []icOp{S(1)}, Scripts: [][]icOp{{{Kind: "close"}}, {S(2), G(1)}, {D(1), {Kind: "wait"}}}},
 		{Name: "R5-loading", O: big, Loading: true, LoadCost: 1, Scripts: [][]icOp{{L(1), G(1)}, {L(1)}, {S(1), D(1)}}},
 		{Name: "R6-update-vs-evict", O: small, Pre: []icOp{S(1)}, Scripts: [][]icOp{{S(1), S(1)}, {S(2)}, {G(1), {Kind: "range"}}}},
+		// read buffer with every atomic a scheduling point and capacity 2 (build schedTrackBuf): drains, Free and refills overlap
+		{Name: "R8-read-buffer", O: big, Pre: []icOp{S(1)}, Scripts: [][]icOp{{G(1), G(1)}, {G(1), G(1)}, {G(1), S(2)}}},
 		{Name: "R7-expiry-vs-ttl-update", O: big, Pre: []icOp{T(1, sec)}, Scripts: [][]icOp{{T(1, 90*sec), G(1)}, {tick}, {D(1)}}},
 	}
 }
